@@ -627,11 +627,25 @@ Proof. intro H. unfold pydiv. apply Qeq_bool_iff in H. rewrite H. reflexivity. Q
 (* One sensor object over a sequence of calls (reads and calibrations) *)
 
 Definition is_read (o : sop) : Prop :=
-  match o with OpRead _ => True | OpCalibrate _ _ => False end.
+  match o with OpRead _ => True | OpCalibrate _ _ => False | OpSetSupply _ => False end.
+
+(* a call that is not calibrate(): a read, or an assignment of voltage_in *)
+Definition no_calibrate (o : sop) : Prop :=
+  match o with OpRead _ => True | OpCalibrate _ _ => False | OpSetSupply _ => True end.
 
 (* what an observation must look like if no read ever raises *)
 Definition read_returns (o : sobs) : Prop :=
-  match o with ObsRead r => exists y, r = Val y | ObsCalibrate _ => True end.
+  match o with ObsRead r => exists y, r = Val y | ObsCalibrate _ => True | ObsSet => True end.
+
+(* the attribute voltage_in after the calls [ops], [vcc] being its value before
+   them: the last value assigned to it, if any *)
+Fixpoint last_supply (vcc : Q) (ops : list sop) : Q :=
+  match ops with
+  | [] => vcc
+  | OpRead _ :: r => last_supply vcc r
+  | OpCalibrate _ _ :: r => last_supply vcc r
+  | OpSetSupply x :: r => last_supply x r
+  end.
 
 (* the calibration in force after the calls [ops]: the last calibrate(p) with
    p <> -25 (calibrate(-25) raises and assigns nothing), as (voltage, p) *)
@@ -639,6 +653,7 @@ Fixpoint last_cal_from (acc : option (Q * Q)) (ops : list sop) : option (Q * Q) 
   match ops with
   | [] => acc
   | OpRead _ :: r => last_cal_from acc r
+  | OpSetSupply _ :: r => last_cal_from acc r
   | OpCalibrate v p :: r =>
       last_cal_from (if Qeq_bool p (-25) then acc else Some (v, p)) r
   end.
@@ -663,7 +678,77 @@ Qed.
 Theorem reads_keep_state K s ops : Forall is_read ops -> final_state K s ops = s.
 Proof.
   induction 1 as [|o r Ho _ IH]; [reflexivity|].
-  destruct o; [exact IH | destruct Ho].
+  destruct o; [exact IH | destruct Ho | destruct Ho].
+Qed.
+
+Lemma is_read_no_calibrate o : is_read o -> no_calibrate o.
+Proof. destruct o; simpl; tauto. Qed.
+
+Lemma reads_no_calibrate ops : Forall is_read ops -> Forall no_calibrate ops.
+Proof. intro H. eapply Forall_impl; [|exact H]. exact is_read_no_calibrate. Qed.
+
+(* calibrate() never touches voltage_in, and leaves Vn assigned *)
+Lemma calibrate_result K s v p s' : calibrate K s v p = Val s' ->
+  voltage_in s' = voltage_in s /\ exists n, vn s' = Some n.
+Proof.
+  unfold calibrate. destruct (pydiv _ _) as [n|e|]; try discriminate.
+  intro H. injection H as <-. split; [reflexivity|]. exists n. reflexivity.
+Qed.
+
+Lemma step_voltage_in K s o : voltage_in (step_state K s o) = last_supply (voltage_in s) [o].
+Proof.
+  destruct o as [v|v p|x]; simpl; try reflexivity.
+  destruct (calibrate K s v p) as [s'|e|] eqn:E; try reflexivity.
+  exact (proj1 (calibrate_result K s v p s' E)).
+Qed.
+
+(* voltage_in is, after ANY calls, the last value assigned to it: neither a
+   read nor calibrate() (returning or raising) changes it *)
+Theorem final_voltage_in K : forall ops s,
+  voltage_in (final_state K s ops) = last_supply (voltage_in s) ops.
+Proof.
+  induction ops as [|o r IH]; intro s; [reflexivity|].
+  rewrite final_state_cons, IH, step_voltage_in. destruct o; reflexivity.
+Qed.
+
+(* only calibrate() assigns Vn *)
+Theorem no_calibrate_keeps_vn K : forall ops s,
+  Forall no_calibrate ops -> vn (final_state K s ops) = vn s.
+Proof.
+  induction ops as [|o r IH]; intros s H; [reflexivity|].
+  inversion H as [|? ? Ho Hr]; subst.
+  rewrite final_state_cons, (IH _ Hr).
+  destruct o; [reflexivity | destruct Ho | reflexivity].
+Qed.
+
+(* the object after reads and assignments of voltage_in *)
+Theorem no_calibrate_state K s ops : Forall no_calibrate ops ->
+  final_state K s ops = {| voltage_in := last_supply (voltage_in s) ops; vn := vn s |}.
+Proof.
+  intro H.
+  pose proof (final_voltage_in K ops s) as A.
+  pose proof (no_calibrate_keeps_vn K ops s H) as B.
+  destruct (final_state K s ops) as [a b]. simpl in A, B. subst. reflexivity.
+Qed.
+
+(* the getter depends on the object only through getattr(self, "Vn", self.voltage_in) *)
+Lemma pressure_supply K s s' v : supply s = supply s' -> pressure K s v = pressure K s' v.
+Proof. intro E. unfold pressure, pressure_try. rewrite E. reflexivity. Qed.
+
+(* s.voltage_in = vcc: nothing is returned or raised; Vn stays; an
+   uncalibrated sensor divides by the new value from the next read on, a
+   calibrated one reads as before *)
+Theorem step_set_supply K : forall s vcc,
+  step_obs K s (OpSetSupply vcc) = ObsSet /\
+  voltage_in (step_state K s (OpSetSupply vcc)) = vcc /\
+  vn (step_state K s (OpSetSupply vcc)) = vn s /\
+  (vn s = None -> supply (step_state K s (OpSetSupply vcc)) = vcc) /\
+  (vn s <> None -> forall v, pressure K (step_state K s (OpSetSupply vcc)) v = pressure K s v).
+Proof.
+  intros s vcc. repeat split.
+  - intro E. unfold supply. simpl. rewrite E. reflexivity.
+  - intros E v. apply pressure_supply. unfold supply. simpl.
+    destruct (vn s); [reflexivity|contradiction].
 Qed.
 
 Section Pressure.
@@ -810,12 +895,16 @@ Proof.
   split; reflexivity.
 Qed.
 
-(* the object after  pre ; calibrate(p) at v ; reads  *)
-Lemma state_after_calibrate s0 pre v p mid : Forall is_read mid ->
-  final_state K s0 (pre ++ OpCalibrate v p :: mid) =
-  step_state K (final_state K s0 pre) (OpCalibrate v p).
+(* the object after  pre ; calibrate(p) at v ; reads and assignments of
+   voltage_in : the getter divides by the Vn of that calibration *)
+Lemma state_after_calibrate s0 pre v p mid s' : Forall no_calibrate mid ->
+  calibrate K (final_state K s0 pre) v p = Val s' ->
+  supply (final_state K s0 (pre ++ OpCalibrate v p :: mid)) = supply s'.
 Proof.
-  intro Hm. rewrite final_state_app, final_state_cons. apply reads_keep_state. exact Hm.
+  intros Hm Hc. rewrite final_state_app, final_state_cons.
+  rewrite (proj1 (step_calibrate_ok _ v p s' Hc)).
+  destruct (calibrate_result K _ v p s' Hc) as (_ & n & Hn).
+  unfold supply. rewrite (no_calibrate_keeps_vn K mid s' Hm), Hn. reflexivity.
 Qed.
 
 Lemma observations_last s0 ops v :
@@ -824,10 +913,11 @@ Lemma observations_last s0 ops v :
 Proof. rewrite observations_app. reflexivity. Qed.
 
 (* whatever was done with the object before (reads, calibrations, failed
-   calibrations), and however many reads at whatever voltages follow the
-   calibration: at the calibration voltage the sensor reports p *)
+   calibrations, assignments of voltage_in), and however many reads at whatever
+   voltages and assignments of voltage_in follow the calibration: at the
+   calibration voltage the sensor reports p *)
 Theorem history_calibrated : forall s0 pre v p mid,
-  0 <= p -> Forall is_read mid ->
+  0 <= p -> Forall no_calibrate mid ->
   exists obs y,
     observations K s0 (pre ++ OpCalibrate v p :: mid ++ [OpRead v]) = obs ++ [ObsRead (Val y)] /\
     y == p.
@@ -835,13 +925,13 @@ Proof.
   intros s0 pre v p mid Hp Hm.
   destruct (calibrated (final_state K s0 pre) v p Hp) as (s' & y & Hc & _ & Hy & E).
   exists (observations K s0 (pre ++ OpCalibrate v p :: mid)), y. split; [|exact E].
-  rewrite app_comm_cons, app_assoc, observations_last, (state_after_calibrate s0 pre v p mid Hm).
-  rewrite (proj1 (step_calibrate_ok _ v p s' Hc)), Hy. reflexivity.
+  rewrite app_comm_cons, app_assoc, observations_last.
+  rewrite (pressure_supply K _ s' v (state_after_calibrate s0 pre v p mid s' Hm Hc)), Hy. reflexivity.
 Qed.
 
 (* ... and at any other voltage v' (p <> -25) *)
 Theorem history_calibrated_general : forall s0 pre v p mid v',
-  ~ p == -25 -> Forall is_read mid ->
+  ~ p == -25 -> Forall no_calibrate mid ->
   exists obs y,
     observations K s0 (pre ++ OpCalibrate v p :: mid ++ [OpRead v']) = obs ++ [ObsRead (Val y)] /\
     y == (p + 25) * (pymax v' v_floor / pymax v v_floor) - 25.
@@ -849,8 +939,8 @@ Proof.
   intros s0 pre v p mid v' Hp Hm.
   destruct (calibrated_general (final_state K s0 pre) v p v' Hp) as (s' & y & Hc & _ & _ & Hy & E).
   exists (observations K s0 (pre ++ OpCalibrate v p :: mid)), y. split; [|exact E].
-  rewrite app_comm_cons, app_assoc, observations_last, (state_after_calibrate s0 pre v p mid Hm).
-  rewrite (proj1 (step_calibrate_ok _ v p s' Hc)), Hy. reflexivity.
+  rewrite app_comm_cons, app_assoc, observations_last.
+  rewrite (pressure_supply K _ s' v' (state_after_calibrate s0 pre v p mid s' Hm Hc)), Hy. reflexivity.
 Qed.
 
 (* reads do not influence later reads: after any number of reads the sensor
@@ -874,21 +964,55 @@ Proof.
   rewrite (history_reads_transparent _ reads v Hr), Hy. reflexivity.
 Qed.
 
+(* an uncalibrated sensor divides by the voltage_in it has NOW: built with
+   vcc0, then any reads and any assignments of voltage_in (the measured supply
+   rail; or a placeholder / 0 at construction and the real value later), a read
+   at v reports 250 v / Vcc - 25 for the LAST value Vcc given to voltage_in *)
+Theorem history_supply_tracked : forall vcc0 ops v,
+  Forall no_calibrate ops -> v_floor <= v -> ~ last_supply vcc0 ops == 0 ->
+  exists obs y,
+    observations K (new_sensor vcc0) (ops ++ [OpRead v]) = obs ++ [ObsRead (Val y)] /\
+    y == 250 * (v / last_supply vcc0 ops) - 25.
+Proof.
+  intros vcc0 ops v H Hv Hs.
+  destruct (pressure_formula (new_sensor (last_supply vcc0 ops)) v Hv Hs) as (y & Hy & E).
+  exists (observations K (new_sensor vcc0) ops), y. split; [|exact E].
+  rewrite observations_last, (no_calibrate_state K (new_sensor vcc0) ops H).
+  simpl. unfold new_sensor in Hy. rewrite Hy. reflexivity.
+Qed.
+
+(* ... for every voltage and every value of voltage_in: never raises; 0 exactly
+   while voltage_in is 0 *)
+Theorem history_supply_total : forall vcc0 ops v,
+  Forall no_calibrate ops ->
+  exists obs y,
+    observations K (new_sensor vcc0) (ops ++ [OpRead v]) = obs ++ [ObsRead (Val y)] /\
+    (last_supply vcc0 ops == 0 -> y == 0) /\
+    (~ last_supply vcc0 ops == 0 -> y == 250 * (pymax v v_floor / last_supply vcc0 ops) - 25).
+Proof.
+  intros vcc0 ops v H.
+  destruct (pressure_total (new_sensor (last_supply vcc0 ops)) v) as (y & Hy & Hz & Hn).
+  exists (observations K (new_sensor vcc0) ops), y. split; [|split; [exact Hz|exact Hn]].
+  rewrite observations_last, (no_calibrate_state K (new_sensor vcc0) ops H).
+  simpl. unfold new_sensor in Hy. rewrite Hy. reflexivity.
+Qed.
+
 (* no read of any history raises *)
 Theorem history_reads_never_raise : forall ops s0,
   Forall read_returns (observations K s0 ops).
 Proof.
   induction ops as [|o r IH]; intro s0; [constructor|].
   simpl. constructor; [|apply IH].
-  destruct o as [v|v p]; simpl; [|exact I].
+  destruct o as [v|v p|x]; simpl; [|exact I|exact I].
   destruct (pressure_total s0 v) as (y & Hy & _). exists y. exact Hy.
 Qed.
 
 (* complete description of the object after ANY sequence of calls *)
 Definition reads_as (s0 s : sensor) (c : option (Q * Q)) : Prop :=
   match c with
-  | None => s = s0
+  | None => vn s = vn s0
   | Some (vc, p) =>
+      (exists n, vn s = Some n) /\
       forall v, exists y, pressure K s v = Val y /\
     y == (p + 25) * (pymax v v_floor / pymax vc v_floor) - 25
   end.
@@ -897,19 +1021,32 @@ Lemma reads_as_step s0 : forall ops s acc,
   reads_as s0 s acc -> reads_as s0 (final_state K s ops) (last_cal_from acc ops).
 Proof.
   induction ops as [|o r IH]; intros s acc H; [exact H|].
-  rewrite final_state_cons. destruct o as [v|v p]; simpl last_cal_from.
+  rewrite final_state_cons. destruct o as [v|v p|x]; simpl last_cal_from.
   - apply IH. exact H.
   - apply IH. destruct (Qeq_bool p (-25)) eqn:E.
     + apply Qeq_bool_iff in E. rewrite (proj1 (step_calibrate_fails s v p E)). exact H.
     + assert (Hp : ~ p == -25) by (intro Hq; apply Qeq_bool_iff in Hq; congruence).
       destruct (calibrated_general s v p 0 Hp) as (s' & _ & Hc & _).
-      rewrite (proj1 (step_calibrate_ok s v p s' Hc)). intro v'.
+      rewrite (proj1 (step_calibrate_ok s v p s' Hc)).
+      split; [exact (proj2 (calibrate_result K s v p s' Hc))|]. intro v'.
       destruct (calibrated_general s v p v' Hp) as (s'' & y & Hc' & _ & _ & Hy & Ey).
       rewrite Hc in Hc'. injection Hc' as <-. exists y. split; [exact Hy|exact Ey].
+  - apply IH. destruct (step_set_supply K s x) as (_ & _ & Hvn & _ & Hcal).
+    destruct acc as [[vc p]|]; unfold reads_as in H |- *.
+    + destruct H as ((n & Hn) & Hr). split; [exists n; rewrite Hvn; exact Hn|].
+      intro v. rewrite (Hcal ltac:(rewrite Hn; discriminate) v). exact (Hr v).
+    + rewrite Hvn. exact H.
 Qed.
 
-Theorem history_spec : forall s0 ops, reads_as s0 (final_state K s0 ops) (last_cal ops).
-Proof. intros s0 ops. apply reads_as_step. reflexivity. Qed.
+(* voltage_in is the last value assigned to it; Vn is untouched while no
+   calibrate(p <> -25) was called; else the object reads, at every voltage and
+   whatever voltage_in is by now, as the last such calibration says *)
+Theorem history_spec : forall s0 ops,
+  voltage_in (final_state K s0 ops) = last_supply (voltage_in s0) ops /\
+  reads_as s0 (final_state K s0 ops) (last_cal ops).
+Proof.
+  intros s0 ops. split; [apply final_voltage_in|]. apply reads_as_step. reflexivity.
+Qed.
 
 End Pressure.
 
